@@ -183,9 +183,49 @@ pub fn check_inventory(cx: &mut Ctx, rule: &str, inv: &BTreeMap<(String, String)
     check_inventory_auto(cx, rule, inv, table, rel, &BTreeMap::new(), &|_, _, _, _| None)
 }
 
+/// A closure belongs to the function that contains it: `f::{closure#0}` is counted with `f` (moving a statement
+/// into or out of a closure -- a `for` loop rewritten as `for_each` -- does not create or remove a panic site).
+pub fn fold_closures(name: &str) -> String {
+    thread_local! {
+        static RE: regex::Regex = regex::Regex::new(r"(::\{closure#\d+\})+$").unwrap();
+    }
+    RE.with(|re| re.replace(name, "").to_string())
+}
+
 pub fn check_inventory_auto(cx: &mut Ctx, rule: &str, inv: &BTreeMap<(String, String), usize>, table: &[SiteRow], rel: &str, sites: &BTreeMap<(String, String), Vec<(String, usize)>>, auto: AutoDischarge) {
     let mut actions: BTreeMap<String, usize> = BTreeMap::new();
     let mut seen_rows = BTreeSet::new();
+    // fold closures into their functions, on both sides
+    let mut folded_inv: BTreeMap<(String, String), usize> = BTreeMap::new();
+    for ((f, k), n) in inv {
+        *folded_inv.entry((fold_closures(f), k.clone())).or_insert(0) += n;
+    }
+    let mut folded_sites: BTreeMap<(String, String), Vec<(String, usize)>> = BTreeMap::new();
+    for ((f, k), v) in sites {
+        folded_sites.entry((fold_closures(f), k.clone())).or_default().extend(v.iter().cloned());
+    }
+    struct Row {
+        func: String,
+        kind: String,
+        max: usize,
+        discharge: String,
+        why: String,
+    }
+    let mut folded_table: Vec<Row> = vec![];
+    for r in table {
+        let f = fold_closures(&strip_lifetimes(r.func));
+        match folded_table.iter_mut().find(|x| x.func == f && x.kind == r.kind) {
+            Some(x) => {
+                x.max += r.max;
+                if !x.discharge.contains(r.discharge) {
+                    x.discharge = format!("{} + {}", x.discharge, r.discharge);
+                }
+                x.why = format!("{}; {}", x.why, r.why);
+            }
+            None => folded_table.push(Row { func: f, kind: r.kind.to_string(), max: r.max, discharge: r.discharge.to_string(), why: r.why.to_string() }),
+        }
+    }
+    let (inv, sites, table) = (&folded_inv, &folded_sites, &folded_table);
     for ((func, kind), n) in inv {
         if func.starts_with("python::__action") {
             *actions.entry(kind.clone()).or_insert(0) += n;
@@ -194,13 +234,13 @@ pub fn check_inventory_auto(cx: &mut Ctx, rule: &str, inv: &BTreeMap<(String, St
         // site-independent discharges first: all sites of this (function, kind) covered by a global rule
         if let Some(ss) = sites.get(&(func.clone(), kind.clone())) {
             let reasons: Vec<Option<String>> = ss.iter().map(|(f, l)| auto(func, kind, f, *l)).collect();
-            let in_table = table.iter().any(|r| strip_lifetimes(r.func) == *func && r.kind == kind && *n <= r.max);
+            let in_table = table.iter().any(|r| r.func == *func && r.kind == *kind && *n <= r.max);
             if !in_table && !reasons.is_empty() && reasons.iter().all(|r| r.is_some()) {
                 cx.ok(rule, &format!("{}: {} x{} -- {}", func, kind, n, reasons[0].clone().unwrap_or_default()));
                 continue;
             }
         }
-        match table.iter().enumerate().find(|(_, r)| strip_lifetimes(r.func) == *func && r.kind == kind) {
+        match table.iter().enumerate().find(|(_, r)| r.func == *func && r.kind == *kind) {
             Some((i, r)) => {
                 seen_rows.insert(i);
                 if *n <= r.max {
